@@ -280,10 +280,28 @@ fn check(prop: &str, tier_arg: &str) -> i32 {
     // confirm every violation by replaying its file in a fresh process
     let mut confirmed: Vec<FoundViolation> = Vec::new();
     for v in &total.violations {
-        let st = std::process::Command::new(&exe).args(["replay", &v.replay]).stdout(std::process::Stdio::null()).status();
-        match st {
-            Ok(s) if s.code() == Some(1) => confirmed.push(v.clone()),
-            other => harness_errors.push(format!("replay of {} did not reproduce ({other:?}): nondeterminism is a harness error", v.replay)),
+        // A deterministic system reproduces at the first attempt. If the code under test has itself
+        // become nondeterministic (e.g. it iterates a randomised hash set), a few more fresh processes
+        // are tried; a violation that reproduces in any of them is real and is reported with a warning.
+        let mut ok = false;
+        let mut last = String::new();
+        for attempt in 0..5 {
+            let st = std::process::Command::new(&exe).args(["replay", &v.replay]).stdout(std::process::Stdio::null()).status();
+            match st {
+                Ok(s) if s.code() == Some(1) => {
+                    ok = true;
+                    if attempt > 0 {
+                        eprintln!("HARNESS (warning): replay of {} reproduced only at attempt {}: the code under test behaves nondeterministically", v.replay, attempt + 1);
+                    }
+                    break;
+                }
+                other => last = format!("{other:?}"),
+            }
+        }
+        if ok {
+            confirmed.push(v.clone());
+        } else {
+            harness_errors.push(format!("replay of {} did not reproduce in 5 fresh processes ({last}): nondeterminism is a harness error", v.replay));
         }
     }
     let wall = start.elapsed().as_secs_f64();
